@@ -68,8 +68,8 @@ package kvql
 //@   requires[C05] coherent: coherent(ctx, val(kv.Key), val(kv.Value)) && wfCtx(ctx) && wfRefs()
 //@   assigns ctx.Hit, mapof(ctx.FieldCaches)
 //@   ensures[C05] coherent: coherent(ctx, val(kv.Key), val(kv.Value))
-//@   ensures (err == nil) == evalok(e, val(kv.Key), val(kv.Value))
-//@   ensures err == nil ==> result == evalv(e, val(kv.Key), val(kv.Value))
+//@   ensures evalok: (err == nil) == evalok(e, val(kv.Key), val(kv.Value))
+//@   ensures evalv: err == nil ==> result == evalv(e, val(kv.Key), val(kv.Value))
 //
 // ---------------------------------------------------------------- cursors (A-STORE)
 //
